@@ -37,11 +37,9 @@ def presence_tests(w, cfb):
                         cb = lib.bodies[oo[1]]
                         cont = events_of(lib, cb, "blockdir::BlockDir::contains")
                         if cont:
-                            # the closure must return the result of contains on the element's hash
-                            ret_from = flow.origins_x(lib, cb, 0)
+                            # the closure may return true only if contains(element.hash) was true
                             arg_from = flow.origins_x(lib, cb, cont[0].args[1])
-                            if "blockdir::BlockDir::contains" in flow.origin_calls(ret_from) and \
-                                    any(x[0] == "param" and "hash" in x[2] for x in arg_from):
+                            if any(x[0] == "param" and "hash" in x[2] for x in arg_from) and _true_implies_call(lib, cb, "contains"):
                                 closure_ok = True
             if over_basis and closure_ok:
                 out.append(e)
@@ -134,3 +132,193 @@ def reuse_guarded(ck, w, rule_id):
     if good:
         ck.ok(o, "%d reuse site(s)" % len(sites), sites=["%s:%d" % (cfb.file, s["line"]) for bb, s, _ in sites], instances=len(sites))
     return good
+
+
+def cli_option(ck, w, rule_id, adt_suffix, field, want, floor=1):
+    """The CLI builds `<adt>` with `field` taken from the named command-line argument
+    (want = ('param', arg-name) ) or from a call (want = ('call', callee-suffix))."""
+    b = w.bin
+    o = ck.ob(rule_id, "CLI: %s.%s comes from %s" % (adt_suffix, field, want[1]))
+    n = 0
+    bad = []
+    for name, body in b.bodies.items():
+        if not body.file.startswith("src/"):
+            continue
+        for adt in ("conserve::" + adt_suffix, "conserve::%s" % adt_suffix.split("::")[-1]):
+            for bb, j, s in rules.agg_sites(body, adt):
+                if field not in s["rv"]["fields"]:
+                    continue
+                n += 1
+                orig = flow.origins_x(b, body, rules.field_operand(s, field))
+                if want[0] == "param":
+                    okk = any(x[0] in ("param", "upvar") and x[2] and x[2][-1] == want[1] for x in orig) and \
+                        not [x for x in orig if x[0] in ("const", "enum", "arith")]
+                else:
+                    okk = any(c.endswith(want[1]) for c in flow.origin_calls(orig))
+                if not okk:
+                    bad.append((body, s, flow.origin_summary(orig)))
+    if n < floor:
+        ck.fail(o, "bin::Command::run", "no %s construction in the CLI" % adt_suffix, "expected the CLI to build %s" % adt_suffix)
+    elif bad:
+        for body, s, why in bad:
+            ck.fail(o, "bin::" + body.root, "%s.%s not from %s" % (adt_suffix.split("::")[-1], field, want[1]),
+                    "%s.%s derives from %s" % (adt_suffix, field, why), "%s:%d" % (body.file, s["line"]))
+    else:
+        ck.ok(o, "%d construction(s)" % n, instances=n)
+
+
+def deciding_switches(body, target_bb):
+    """Switch blocks that decide whether `target_bb` can still be reached: blocks with at least
+    two live successors of which some can reach the target and some cannot."""
+    out = []
+    for bb in sorted(body.live):
+        succs = body.succ[bb]
+        if len(succs) < 2 or body.blocks[bb]["term"]["tk"] != "switch":
+            continue
+        if target_bb not in body.reachable(bb):
+            continue
+        reach = [(s == target_bb) or (target_bb in body.reachable(s, removed_nodes={bb})) for s in succs]
+        if any(reach) and not all(reach):
+            out.append(bb)
+    return out
+
+
+def switch_subject(crate, body, bb):
+    """Human-readable description of what a switch block tests."""
+    from cv import pred
+    t = body.blocks[bb]["term"]
+    d = t["discr"]
+    l = flow.operand_local(d)
+    if l is None:
+        return "const"
+    # discriminant of something?
+    for s in reversed(body.blocks[bb]["stmts"]):
+        if s["sk"] == "assign" and s["pl"]["l"] == l and s["rv"]["rk"] == "discr":
+            return "variant of " + pred.describe(crate, body, {"k": "copy", "pl": s["rv"]["pl"]})
+    return pred.describe(crate, body, d)
+
+
+def reuse_exactly_conditioned(ck, w, rule_id):
+    """The reuse of basis addresses happens under EXACTLY: basis present, heuristic true, every
+    block present - no further condition (an extra one silently turns unchanged files into
+    re-stored ones)."""
+    lib = w.lib
+    cfb, sites = reuse_sites(w)
+    o = ck.ob(rule_id, "copy_file: basis addresses are reused whenever the basis exists, the heuristic holds and all blocks are present - no additional condition")
+    if not sites:
+        ck.fail(o, cfb.name, "no reuse site", "no reuse of basis addresses")
+        return
+    heur = events_of(lib, cfb, HEUR)
+    pres = presence_tests(w, cfb)
+    expected = set()
+    for e in heur + pres:
+        # the switch that branches on this event's result
+        for (u, v) in rules.bool_switch_edges(cfb, e, True):
+            expected.add(u)
+    problems = []
+    for bb, s, orig in sites:
+        for sw in deciding_switches(cfb, bb):
+            if sw in expected:
+                continue
+            subj = switch_subject(lib, cfb, sw)
+            if "basis_entry" in subj and "variant" in subj:
+                continue   # `if let Some(basis_entry)`
+            if _is_await_switch(cfb, sw):
+                continue
+            problems.append("reuse additionally depends on %s" % subj)
+    # the presence closure must be exactly `contains(hash)`
+    for e in pres:
+        for a in e.args[1:]:
+            for oo in flow.origins(cfb, a):
+                if oo[0] == "agg" and oo[1] in lib.bodies:
+                    cb = lib.bodies[oo[1]]
+                    from cv import pred
+                    try:
+                        paths = pred.enumerate_paths(lib, cb)
+                    except (pred.NotLoopFree, pred.TooManyPaths):
+                        problems.append("presence closure is not a simple predicate")
+                        continue
+                    atoms = set()
+                    for p in paths:
+                        atoms |= set(p["constraints"])
+                        if p["ret"][0] == "atom":
+                            atoms.add(p["ret"][1])
+                    extra = [a_ for a_ in atoms if not (a_[0].startswith("call:contains"))]
+                    if extra:
+                        problems.append("presence closure tests more than block_dir.contains(hash): %s" % sorted(str(x[0]) for x in extra))
+    if problems:
+        for m in sorted(set(problems)):
+            ck.fail(o, cfb.name, m, m, "%s:%d" % (cfb.file, sites[0][1]["line"]))
+    else:
+        ck.ok(o, "deciding tests: basis present, heuristic, presence", instances=len(sites))
+
+
+def _is_await_switch(body, bb):
+    """Switch on the Poll / resume state of an await (not a program condition)."""
+    t = body.blocks[bb]["term"]
+    l = flow.operand_local(t["discr"])
+    for s in reversed(body.blocks[bb]["stmts"]):
+        if s["sk"] == "assign" and s["pl"]["l"] == l and s["rv"]["rk"] == "discr":
+            ty = body.locals[s["rv"]["pl"]["l"]]
+            return ty.startswith("std::task::Poll<") or "ControlFlow" in ty
+    return False
+
+
+def stitch_drops_only_filtered(ck, w, rule_id):
+    """In Stitch::next a buffered entry is either returned or rejected by exactly one of the two
+    tests (outside the subtree / excluded): nothing else is dropped."""
+    lib = w.lib
+    sn = w.body("index::stitch::Stitch::next")
+    o = ck.ob(rule_id, "Stitch::next: an entry read from the index is dropped only if is_prefix_of was false or exclude.matches was true - nothing else is dropped")
+    nx = [e for e in sn.events if e.bb in sn.live and e.name.endswith("Peekable<I> as std::iter::Iterator>::next")]
+    pre = events_of(lib, sn, "apath::Apath::is_prefix_of")
+    exc = events_of(lib, sn, "excludes::Exclude::matches")
+    rets = [bb for bb, j, s in rules.agg_sites(sn, "std::option::Option", "Some") if s["pl"]["l"] == 0]
+    if not nx or not pre or not exc or not rets:
+        ck.fail(o, sn.name, "filter shape changed", "next=%d is_prefix_of=%d matches=%d returns=%d" % (len(nx), len(pre), len(exc), len(rets)))
+        return
+    some_targets = set()
+    for (sb, tested, arms, other) in flow.discriminant_switches(sn, flow.result_carriers(sn, nx[0].dest["l"])):
+        if 1 in arms:
+            some_targets.add(arms[1])
+    reject = set()
+    for e in pre:
+        reject |= rules.bool_switch_edges(sn, e, False)
+    for e in exc:
+        reject |= rules.bool_switch_edges(sn, e, True)
+    # from "got an entry", with the reject edges and the return removed, the loop must not continue
+    bad = False
+    for t in some_targets:
+        reach = sn.reachable(t, removed_edges=reject, removed_nodes=set(rets))
+        again = [e for e in nx if e.bb in reach]
+        ends = [r for r in sn.return_blocks() if r in reach]
+        if again or ends:
+            bad = True
+    if bad:
+        ck.fail(o, sn.name, "entries dropped by something other than the subtree / exclusion tests",
+                "an entry can be skipped (or the listing ended) without is_prefix_of==false or matches==true")
+    else:
+        ck.ok(o, sites=[pre[0].site(), exc[0].site()])
+
+
+def _true_implies_call(crate, body, short_name):
+    """For a small bool-valued body: every path that may return true has the bool-returning
+    call `short_name` decided true."""
+    from cv import pred
+    try:
+        paths = pred.enumerate_paths(crate, body)
+    except (pred.NotLoopFree, pred.TooManyPaths):
+        return False
+    seen_true = False
+    for p in paths:
+        r = p["ret"]
+        c = dict(p["constraints"])
+        if r[0] == "const":
+            if r[1] == 0:
+                continue
+        elif r[0] == "atom":
+            c[r[1]] = not r[2]
+        seen_true = True
+        if not any(a[0] == "call:" + short_name and v is True for a, v in c.items()):
+            return False
+    return seen_true
